@@ -176,9 +176,13 @@ nth_int = ufunc("nth.int", z3.SeqSort(Int), Int, Int)   # own indexing symbol: z
 
 
 def seq_nth(s, j):
+    """own indexing symbols nth.<elem sort> (ground definitional instances are generated in pv/prep.py)"""
     if s.sort() == z3.SeqSort(Int):
         return nth_int(s, j)
-    return s[j]
+    if z3.is_string(s):
+        return s[j]
+    es = s.sort().basis()
+    return ufunc("nth." + es.name(), s.sort(), Int, es)(s, j)
 
 
 def pow2_term(e):
